@@ -153,3 +153,20 @@ Theorem C07_order_required_at_first_positional :
                                  In p pre /\ (exists a nf rv, p = OSort a nf rv).
 Proof. exact order_required_at_first_positional. Qed.
 Print Assumptions C07_order_required_at_first_positional.
+
+(* buildRangePruner (which pushed-down filters get a key-range pruner; what the
+   pruner computes is C16's subject): an `or` is prunable only if both sides
+   are, an `and` if one is, and an `or` with a side that contains no comparison
+   of the pool key with a literal gets no pruner.  (The model's answer is
+   compared with the real Lister.KeyPruner on every lake plan compiled.) *)
+Theorem C07_pruner_or_needs_both :
+  forall a b key,
+    prunable (EBinary 1 a b) key = true -> prunable a key = true /\ prunable b key = true.
+Proof. exact prunable_or_needs_both. Qed.
+Print Assumptions C07_pruner_or_needs_both.
+
+Theorem C07_pruner_or_with_unanalysable_side :
+  forall a b key,
+    mentions_key_cmp b key = false -> prunable (EBinary 1 a b) key = false.
+Proof. exact or_with_unanalysable_side_not_prunable. Qed.
+Print Assumptions C07_pruner_or_with_unanalysable_side.
